@@ -2631,7 +2631,9 @@ func (t *task) complete(bq *InMemoryBuildQueue, executeResponse *remoteexecution
 		// after completion. This reduces memory usage
 		// significantly. Keep the Action digest, so that
 		// there's still a way to figure out what the task was.
-		delete(bq.inFlightDeduplicationMap, t.actionDigest)
+		if bq.inFlightDeduplicationMap[t.actionDigest] == t {
+			delete(bq.inFlightDeduplicationMap, t.actionDigest)
+		}
 		t.executeResponse = executeResponse
 		t.desiredState.Action = nil
 		close(t.stageChangeWakeup)
